@@ -111,6 +111,7 @@ def run(ctx: Ctx) -> None:
 
     # ---------------- R4
     n4 = 0
+    cfgs: dict = {}
     for mod, cls in (("protocol.http_stream", "HTTPStream"), ("protocol.ws_stream", "WSStream")):
         for name, fn in repo.methods(mod, cls).items():
             for c in calls(fn):
@@ -129,8 +130,13 @@ def run(ctx: Ctx) -> None:
                         continue
                     n4 += 1
                     ok = "build_and_validate_headers()" in p.ops
+                    if ok and not (isinstance(h, ast.Call) and call_name(h) == "build_and_validate_headers"):
+                        # must-analysis: on EVERY path to the sink the list went through the validator
+                        g4 = cfgs.setdefault(id(fn), CFG(fn))
+                        sink = [n.id for n in g4.nodes if n.ast is not None and any(c is x for x in ast.walk(n.ast)) and n.kind != "test"] or [n.id for n in g4.nodes if n.ast is not None and any(c is x for x in ast.walk(n.ast))]
+                        ok = bool(sink) and g4.dominates(has_call("build_and_validate_headers"), sink[-1], skip_labels=("exc", "uncaught"))
                     ctx.check("C12.R4", f"{mod}:{cls}.{name}", f"{call_name(c)}(headers <- {sorted(l for l in p.leaves if l.startswith(('message', 'self.response')))})", ok,
-                              f"application-supplied headers reach {call_name(c)} without build_and_validate_headers (ops: {sorted(p.ops)})", c)
+                              f"application-supplied headers reach {call_name(c)} without passing build_and_validate_headers on every path (e.g. validated for some HTTP versions only; ops: {sorted(p.ops)})", c)
     ctx.need(n4 >= 6, f"only {n4} application-header sinks found")
 
     # ---------------- R5
